@@ -28,7 +28,7 @@ func runC05(c *Ctx) {
 	c.Rule("C05.O5", "E4", "the job, the default Engine.Execute and SyncExecutor run the function inside a frame that defers recover()", 3)
 	c.Rule("C05.O7", "E4", "a job handed to a connection's Execute is never also called directly by the submitter: a refused job (closed connection) is dropped, not run inline next to the jobs still queued or running", 4)
 	c05NoInlineRun(c)
-	c.Rule("C05.O6", "E5", "MustExecute has no closed test; the nbhttp close hook works only inside a MustExecute job; poller-path parsers and WebSocket conns use the bound Execute of the registered connection", 6)
+	c.Rule("C05.O6", "E5", "MustExecute has no closed test; the nbhttp close hook works only inside a MustExecute job; poller-path parsers and WebSocket conns use the bound Execute of the registered connection", 14)
 
 	L := c.Locks()
 
